@@ -10,6 +10,7 @@ import (
 	"github.com/hack-pad/hackpadfs"
 	"github.com/hack-pad/hackpadfs/cache"
 	"github.com/hack-pad/hackpadfs/mem"
+	"github.com/hack-pad/hackpadfs/mount"
 )
 
 // cachesim: cache.ReadOnlyFS between a source behind a counting/faulting wrapper and a cache store
@@ -17,7 +18,8 @@ import (
 
 type cacheWorld struct {
 	t        *T
-	srcInner *mem.FS
+	srcInner hackpadfs.FS // mem.FS, or (1 in 4) a mount.FS whose directory d is a mount point
+	srcDesc  string
 	src      *capCore
 	store    *capCore
 	storeIn  *mem.FS
@@ -39,13 +41,24 @@ var cacheSizes = []int{0, 1, 511, 512, 513, 1024, 1500, 2000, 4096}
 func newCacheWorld(t *T, sizes []int) *cacheWorld {
 	c := t.C
 	w := &cacheWorld{t: t, files: map[string][]byte{}}
-	w.srcInner, _ = mem.NewFS()
+	rootMem, _ := mem.NewFS()
+	w.srcInner, w.srcDesc = rootMem, "mem"
 	w.storeIn, _ = mem.NewFS()
 	// source tree: a few files in the root and below d/ and d/e/
 	paths := []string{"f0", "d/f1", "d/e/f2", "g3", "d/f4"}
 	nfiles := 2 + c.Draw(len(paths)-1)
-	must(t, w.srcInner.MkdirAll("d/e", 0755))
-	must(t, w.srcInner.Mkdir("empty", 0700))
+	if c.Chance(1, 4) {
+		// a composed source: d is a mount point. The covered directory (0700) and the mounted root (0755)
+		// answer differently, so an entry of the parent's listing is not the Stat of the child
+		must(t, rootMem.Mkdir("d", 0700))
+		mounted, _ := mem.NewFS()
+		mfs, err := mount.NewFS(rootMem)
+		must(t, err)
+		must(t, mfs.AddMount("d", mounted))
+		w.srcInner, w.srcDesc = mfs, "mount(mem; d -> mem)"
+	}
+	must(t, hackpadfs.MkdirAll(w.srcInner, "d/e", 0755))
+	must(t, hackpadfs.Mkdir(w.srcInner, "empty", 0700))
 	w.dirs = []string{".", "d", "d/e", "empty"}
 	for i := 0; i < nfiles; i++ {
 		data := uniqueData(i+1, sizes[c.Draw(len(sizes))])
@@ -132,7 +145,7 @@ func runC10(t *T) {
 		cur.knobs["cacheCopyBuf"] = uint64([]int{1, 7, 64, 512, 4096}[c.Draw(5)])
 	}
 	w := newCacheWorld(t, cacheSizes)
-	t.Logf("retain=%s minimal-store=%v src-read-shape=%d copybuf=%v files=%v", w.retDesc, w.storeMin, w.src.readShape, cur.knobs["cacheCopyBuf"], w.names())
+	t.Logf("source=%s retain=%s minimal-store=%v src-read-shape=%d copybuf=%v files=%v", w.srcDesc, w.retDesc, w.storeMin, w.src.readShape, cur.knobs["cacheCopyBuf"], w.names())
 	type hp struct {
 		c, m         hackpadfs.File
 		name         string
